@@ -89,7 +89,8 @@ theorem local_afnEdges (d : Desc) (m t : Nat) (a : Option AfnD) :
           simp only [List.all_cons, local_msgEdges, Bool.and_true]
           simp [localOk, good, rank, fld] <;> arith
 
-theorem local_modEdges (d : Desc) (ht : d.taskCtx = false) (m : Nat) (md : ModD) (hm : m < d.mods.length) :
+theorem local_modEdges (d : Desc) (ht : d.taskCtx = false) (hpc : d.parentCache = false) (m : Nat) (md : ModD)
+    (hm : m < d.mods.length) :
     (modEdges d m md).all (localOk d) = true := by
   have hmin : min m d.mods.length = m := by omega
   unfold modEdges
@@ -103,7 +104,7 @@ theorem local_modEdges (d : Desc) (ht : d.taskCtx = false) (m : Nat) (md : ModD)
       split
       · rename_i hlt
         have : min p d.mods.length = p := by omega
-        simp [modRefEdges, localOk, good, rank, fld, hmin, this] <;> arith
+        simp [modRefEdges, localOk, good, rank, fld, hmin, this, hpc] <;> arith
       · simp
   · simp [localOk, good, rank, fld]
   · simp [List.all_map, localOk, good, rank, fld]
@@ -143,7 +144,8 @@ theorem local_linkEdges (d : Desc) (hk : d.keepChan = false) (c : Nat) (l : Link
       simp [localOk, good, rank, fld]
   · simp
 
-theorem local_mkEdges (d : Desc) (hk : d.keepChan = false) (ht : d.taskCtx = false) :
+theorem local_mkEdges (d : Desc) (hk : d.keepChan = false) (ht : d.taskCtx = false)
+    (hpc : d.parentCache = false) :
     (mkEdges d).all (localOk d) = true := by
   unfold mkEdges
   simp only [List.all_append, Bool.and_eq_true]
@@ -156,7 +158,7 @@ theorem local_mkEdges (d : Desc) (hk : d.keepChan = false) (ht : d.taskCtx = fal
     rintro ⟨m, md⟩ hmem
     have := (mem_enum d.mods m md).mp hmem
     have hm : m < d.mods.length := (List.getElem?_eq_some_iff.mp this).1
-    exact local_modEdges d ht m md hm
+    exact local_modEdges d ht hpc m md hm
   · rw [List.all_flatMap, List.all_eq_true]
     rintro ⟨c, l⟩ _
     exact local_linkEdges d hk c l
@@ -165,9 +167,9 @@ theorem local_mkEdges (d : Desc) (hk : d.keepChan = false) (ht : d.taskCtx = fal
 /-- the rank function is a witness that the strong edges which `dissolve_paths` does not cut are
     well-founded; `wired` adds the two closure conditions that mention other edges -/
 theorem ranked_of_wired (d : Desc) (hk : d.keepChan = false) (ht : d.taskCtx = false)
-    (hw : wired d = true) :
+    (hpc : d.parentCache = false) (hw : wired d = true) :
     Ranked nidSem (mkEdges d) roots (fun v => good v = true) (rank d) := by
-  have hl := List.all_eq_true.mp (local_mkEdges d hk ht)
+  have hl := List.all_eq_true.mp (local_mkEdges d hk ht hpc)
   have hw' := List.all_eq_true.mp hw
   refine ⟨?_, ?_, ?_, ?_, ?_⟩
   · intro e he hg
